@@ -468,9 +468,12 @@ inline std::vector<std::string> CanonicalDump(wallet::CWallet& w)
 inline std::string FirstDifference(const std::vector<std::string>& a, const std::vector<std::string>& b)
 {
     std::set<std::string> sa(a.begin(), a.end()), sb(b.begin(), b.end());
-    for (auto& x : a) if (!sb.count(x)) return "before restart: [" + x.substr(0, 400) + "] is missing afterwards" + [&] { for (auto& y : b) if (!sa.count(y) && y.substr(0, 12) == x.substr(0, 12)) return "; afterwards: [" + y.substr(0, 400) + "]"; return std::string(); }();
-    for (auto& y : b) if (!sa.count(y)) return "after restart: [" + y.substr(0, 400) + "] was not there before";
-    return "";
+    std::string out;
+    int n = 0;
+    for (auto& x : a) if (!sb.count(x) && n++ < 4) out += " BEFORE-ONLY[" + x.substr(0, 300) + "]";
+    n = 0;
+    for (auto& y : b) if (!sa.count(y) && n++ < 4) out += " AFTER-ONLY[" + y.substr(0, 300) + "]";
+    return out;
 }
 
 // ---------------------------------------------------------------------------------------------------------------------------------
@@ -524,7 +527,7 @@ inline void AddSecretsOfDescriptorString(std::vector<Secret>& out, const std::st
 /** First secret found in the bytes of `file`, or "" if none. */
 inline std::string ScanFile(const fs::path& file, const std::vector<Secret>& secrets)
 {
-    std::ifstream f(file, std::ios::binary);
+    std::ifstream f(static_cast<const std::filesystem::path&>(file), std::ios::binary);
     if (!f) return "";
     std::vector<unsigned char> data((std::istreambuf_iterator<char>(f)), std::istreambuf_iterator<char>());
     for (const Secret& s : secrets) {
@@ -538,7 +541,7 @@ inline std::string ScanFile(const fs::path& file, const std::vector<Secret>& sec
 inline std::string ScanDir(const fs::path& dir, const std::vector<Secret>& secrets, const std::function<bool(const std::string&)>& want = nullptr)
 {
     std::vector<fs::path> files;
-    for (auto& e : std::filesystem::directory_iterator(dir)) if (e.is_regular_file()) files.push_back(e.path());
+    for (auto& e : std::filesystem::directory_iterator(static_cast<const std::filesystem::path&>(dir))) if (e.is_regular_file()) files.push_back(fs::path(e.path()));
     std::sort(files.begin(), files.end());
     for (auto& p : files) {
         if (want && !want(fs::PathToString(p.filename()))) continue;
